@@ -394,7 +394,23 @@ pub fn monitored_new_epoch(acc: &mut Acc, wd: &mut SysWorld, caller: usize) -> b
     }
     let routes: Vec<Option<Vec<rm::SwapOperation>>> = assets.iter().map(|a| wd.route(a)).collect();
     let snap0 = snap(&wd.app);
+    crate::trap::log_clear();
+    crate::trap::log_enable(true, false);
     let res = exec(&mut wd.app, &usr, &wd.core.distributor.clone(), &fd::ExecuteMsg::NewEpoch {}, &[]);
+    crate::trap::log_enable(false, false);
+    let calls = crate::trap::log_take();
+    // F7: "a failed step leaves every balance unchanged": a NewEpoch that succeeds must not contain a
+    // contract call that failed (nothing in the system is allowed to swallow a failing step)
+    if res.is_ok() {
+        acc.count("check.F7.no-swallowed-failure");
+        acc.add("F7.contract-calls-inside-new-epoch", calls.len() as u64);
+        if let Some(bad) = calls.iter().find(|c| c.outcome != 0) {
+            let m: String = String::from_utf8_lossy(&bad.msg).chars().take(160).collect();
+            acc.violation("C10", "F7/failed-step-swallowed-by-successful-new-epoch", detail(wd, json!({"contract": bad.contract, "entry": bad.entry, "msg": m, "err": bad.err.chars().take(160).collect::<String>(), "step": what})));
+        }
+    } else if calls.iter().filter(|c| c.outcome != 0).count() > 1 {
+        acc.count("new_epoch.rejected.failure-inside-a-sub-call");
+    }
     match res {
         Err(e) => {
             acc.count("new_epoch.rejected");
